@@ -312,9 +312,10 @@ func (w *World) alive(name string) bool {
 
 type metaProbe struct {
 	gen.MetaProcess
-	r     *rec
-	start *vsched.Gate // Start() returns when this gate opens
-	onMsg func(m *metaProbe, from gen.PID, msg any) error
+	r      *rec
+	start  *vsched.Gate // Start() returns when this gate opens
+	onMsg  func(m *metaProbe, from gen.PID, msg any) error
+	onTerm func(reason error)
 }
 
 func (m *metaProbe) enter(what string) {
@@ -363,6 +364,9 @@ func (m *metaProbe) Terminate(reason error) {
 	m.r.term = append(m.r.term, reason.Error())
 	m.enter("T:" + reason.Error())
 	defer m.exit()
+	if m.onTerm != nil {
+		m.onTerm(reason)
+	}
 }
 func (m *metaProbe) HandleInspect(from gen.PID, item ...string) map[string]string {
 	m.enter("N")
